@@ -24,3 +24,5 @@ open UtilModel UtilModel.Broadcast
 #print axioms UtilModel.Broadcast.body_exclusive
 #print axioms UtilModel.C03_accepted
 #print axioms UtilModel.acceptsH_sound
+#print axioms UtilModel.complete_broadcast
+#print axioms UtilModel.complete_broadcast_core
